@@ -36,6 +36,7 @@ type c05Round struct {
 	StopMid   bool // the client reads nothing until Stop has been called while the handlers are stalled in Write
 	Linger    bool // every frame is a search result entry and the handlers keep running until the client has received everything (or gives up)
 	BadFirst  bool // every writer first tries to write a response that cannot be encoded (a typed nil; the panic is recovered by the handler)
+	Debug     bool // the server logs at debug level
 	WTimeout  int  // ms; > 0: the server is created WithWriteTimeout and the client reads nothing until the write deadline has expired
 }
 
@@ -111,6 +112,9 @@ func C05(args []string) error {
 					frames = 3
 				}
 				add(c05Round{Writers: n, Frames: frames, Transport: tr, SlowRead: rnd.Intn(2) == 0, Procs: []int{1, 2, 16}[rnd.Intn(3)], MaxSize: []int{300, 9000, 200000}[rnd.Intn(3)]})
+				if last := &rounds[len(rounds)-1]; rep%2 == 1 && last.MaxSize <= 9000 {
+					last.Debug = true
+				}
 			}
 		}
 	}
@@ -128,6 +132,15 @@ func C05(args []string) error {
 	// WithWriteTimeout: the client stalls the writers beyond the connection's write deadline, then reads again
 	add(c05Round{Writers: 6, Frames: 3, Transport: "plain", MaxSize: 3 << 20, Procs: 4, WTimeout: 400})
 	add(c05Round{Writers: 12, Frames: 4, Transport: "plain", MaxSize: 2 << 20, Procs: 16, WTimeout: 300})
+	// many short rounds of handlers that answer at the same moment with one small response each, logging at debug level:
+	// what goes wrong only when the last two writers of a burst meet in a window of a microsecond
+	nb := 150
+	if *tier == "thorough" {
+		nb = 1200
+	}
+	for k := 0; k < nb; k++ {
+		add(c05Round{Writers: []int{2, 8, 32}[k%3], Frames: 1, Transport: "plain", MaxSize: 300, Procs: []int{4, 16, 2}[k%3], Debug: k%4 != 3})
+	}
 	tm := getTLSMaterial()
 	for _, r := range rounds {
 		if err := c05Run(r, out, seed, tm); err != nil {
@@ -236,6 +249,11 @@ func c05Run(rd c05Round, out *hx.Out, seed int64, tm *tlsMaterial) error {
 		ropts = append(ropts, gldap.WithTLSConfig(tm.server))
 	}
 	sopts := []gldap.Option{gldap.WithLogger(hx.NullLogger())}
+	if rd.Debug {
+		// debug-level logging (into nothing): Write then does more between its steps (it prints the packet before it takes
+		// the lock and logs after the flush), which moves where concurrent writers meet
+		sopts = []gldap.Option{gldap.WithLogger(hx.DebugLogger())}
+	}
 	if rd.WTimeout > 0 {
 		sopts = append(sopts, gldap.WithWriteTimeout(time.Duration(rd.WTimeout)*time.Millisecond))
 	}
